@@ -103,6 +103,26 @@ func encCertSelector(p *Prog) (sel *ssa.Function, inline bool) {
 			}
 		}
 	}
+	// ... or as a function of the registered descriptor alone: a root-package function returning (certificate, error)
+	// that (with its helpers) reads key descriptors
+	for _, fn := range p.modFns {
+		if !p.InLibrary(fn) || fn.Pkg == nil || fn.Pkg.Pkg.Path() != modPath || len(fn.Blocks) == 0 {
+			continue
+		}
+		res := fn.Signature.Results()
+		if res.Len() != 2 || errIndex(fn) != 1 || !typeIs(res.At(0).Type(), "crypto/x509", "Certificate") {
+			continue
+		}
+		for _, h := range helperRegion(p, fn, 2) {
+			for _, b := range h.Blocks {
+				for _, in := range b.Instrs {
+					if fa, ok := in.(*ssa.FieldAddr); ok && fieldName(fa.X.Type(), fa.Field) == "KeyDescriptors" {
+						return fn, false
+					}
+				}
+			}
+		}
+	}
 	mk := p.MustFunc("saml", "IdpAuthnRequest", "MakeAssertionEl")
 	if len(methodCallsOn(mk, "crypto/x509.ParseCertificate")) > 0 {
 		return mk, true
@@ -1028,7 +1048,21 @@ func checkSPSameChecks(r *Report, p *Prog, sc *Scope) {
 	if m.AssertFn == nil {
 		panic(unresolved{"role assertion parser"})
 	}
-	for _, cs := range p.StaticCallersOf(dec) {
+	// (a caller that is only a shell around the step - a method kept for its callers that forwards to the function
+	// doing the work - is looked through: the callers of the shell are the callers of the step)
+	sites := p.StaticCallersOf(dec)
+	for round := 0; round < 2; round++ {
+		var next []callSite
+		for _, cs := range sites {
+			if c, isCall := cs.Instr.(*ssa.Call); isCall && handsBackResultsOf(cs.Caller, c) && len(p.StaticCallersOf(cs.Caller)) > 0 {
+				next = append(next, p.StaticCallersOf(cs.Caller)...)
+			} else {
+				next = append(next, cs)
+			}
+		}
+		sites = next
+	}
+	for _, cs := range sites {
 		caller := cs.Caller
 		cfc := a.Ctx(caller)
 		cfc.ensureConds()
@@ -1413,4 +1447,38 @@ func checkTheCertificate(r *Report, p *Prog, sel *ssa.Function, rule string) {
 	if n == 0 {
 		r.Undecided(rule, p.FnName(sel)+": certificate values", p.Pos(sel.Pos()), "no certificate value of the selector resolves to x509.ParseCertificate")
 	}
+}
+
+// handsBackResultsOf: fn is a shell around call: a single block whose only call is this one and whose return hands back
+// exactly the call's results, in order (the arguments may be fn's parameters or fields of its receiver).
+func handsBackResultsOf(fn *ssa.Function, call *ssa.Call) bool {
+	if len(fn.Blocks) != 1 {
+		return false
+	}
+	var ret *ssa.Return
+	for _, in := range fn.Blocks[0].Instrs {
+		switch x := in.(type) {
+		case *ssa.Call:
+			if x != call {
+				return false
+			}
+		case *ssa.Return:
+			ret = x
+		case *ssa.Defer, *ssa.Go, *ssa.Store, *ssa.MapUpdate, *ssa.Send, *ssa.Panic:
+			return false
+		}
+	}
+	if ret == nil {
+		return false
+	}
+	if len(ret.Results) == 1 {
+		return ret.Results[0] == ssa.Value(call)
+	}
+	for k, rv := range ret.Results {
+		ex, ok := rv.(*ssa.Extract)
+		if !ok || ex.Tuple != ssa.Value(call) || ex.Index != k {
+			return false
+		}
+	}
+	return len(ret.Results) > 0
 }
